@@ -1199,7 +1199,9 @@ def call_method(self, recv, name, args, kwargs, st, node):
             if name == "values":
                 kv = self.view_of(recv, st)
                 vals = self.dvals(st, recv)
-                yield View(kv.length, lambda i: self.valid_ref(st, Val(t.v, z3.Select(vals, kv.at(i).z))), t.v), st
+                vv = View(kv.length, lambda i: self.valid_ref(st, Val(t.v, z3.Select(vals, kv.at(i).z))), t.v)
+                vv.values_of = recv          # `x in d.values()`  <=>  some key of d maps to x
+                yield vv, st
                 return
             if name == "items":
                 kv = self.view_of(recv, st)
